@@ -335,6 +335,25 @@ def serializable_property(name: str, docstring: str | None = None) -> property:
     return property(get, set, doc=docstring)
 
 
+def _timezone_property(name: str, docstring: str | None = None) -> property:
+    """A serializable property holding a timezone offset.
+
+    The "-0000" / "--700" spelling recorded while parsing belongs to the offset
+    that was parsed; it is dropped when a different offset is assigned.
+    """
+
+    def set(obj: "ShaFile", value: object) -> None:
+        if value != getattr(obj, "_" + name, None):
+            setattr(obj, "_" + name + "_neg_utc", False)
+        setattr(obj, "_" + name, value)
+        obj._needs_serialization = True
+
+    def get(obj: "ShaFile") -> object:
+        return getattr(obj, "_" + name)
+
+    return property(get, set, doc=docstring)
+
+
 def object_class(type: bytes | int) -> type["ShaFile"] | None:
     """Get the object class corresponding to the given type.
 
@@ -1328,7 +1347,7 @@ class Tag(ShaFile):
         "tag_time",
         "The creation timestamp of the tag.  As the number of seconds since the epoch",
     )
-    tag_timezone = serializable_property(
+    tag_timezone = _timezone_property(
         "tag_timezone", "The timezone that tag_time is in."
     )
     message = serializable_property("message", "the message attached to this tag")
@@ -2320,7 +2339,7 @@ class Commit(ShaFile):
         "The timestamp of the commit. As the number of seconds since the epoch.",
     )
 
-    commit_timezone = serializable_property(
+    commit_timezone = _timezone_property(
         "commit_timezone", "The zone the commit time is in"
     )
 
@@ -2330,7 +2349,7 @@ class Commit(ShaFile):
         "seconds since the epoch.",
     )
 
-    author_timezone = serializable_property(
+    author_timezone = _timezone_property(
         "author_timezone", "Returns the zone the author time is in."
     )
 
